@@ -5,7 +5,7 @@ import random
 
 import z3
 
-from harness.common import Ctx, byte_obligation, mi, read_scenario
+from harness.common import Ctx, byte_obligation, io_cases, mi, read_scenario
 from oracles.mem import SymMem, SymOpaque
 from oracles import hds as spec
 from symx import core, files, layouts, loader
@@ -92,10 +92,13 @@ def read_task(prop, cfg, tier, seed):
             g0=lambda mo: mi(mo, offset), spec_at=spec_at, unit=cs, rng=rng, maxlen=(lambda mo: mi(mo, length)) if cfg.get("tail") else None, j=j,
             opaque=("parent",) if has_parent else (),
             prefer=[nbat <= 1 << 20] + ([length <= 16 << 20] if cs <= (4 << 20) else []))
+        ctx.scenario.wide = [offset >= 1 << 39]
         obj = m.HDS(fh, parent)
         res = obj._read(offset, length)
         sv = spec.guest_byte(offset + j, version, tracks, mem, par)
         bad = byte_obligation(res, j, explen, sv, extra=[obj.size != size], maxlen=length if cfg.get("tail") else None)
+        if cfg.get("io"):
+            bad += io_cases(fh.reads, 64 + 4 * nbat + length, 2 + N + 1)
         if ctx.obligation(bad, "read differs from the guest-visible content"):
             ctx.witness()
 
